@@ -45,6 +45,7 @@ PAIRS = [
     ("tuple_variant", "serialize_tuple_variant", "tuple_variant"), ("map", "serialize_map", "deserialize_map"),
     ("struct", "serialize_struct", "deserialize_struct"), ("struct_variant", "serialize_struct_variant", "struct_variant"),
     ("enum", "serialize_unit_variant", "deserialize_enum"), ("seq element", "serialize_element", "next_element_seed"),
+    ("str via Display (collect_str)", "collect_str", "deserialize_str"),
     ("map key", "serialize_key", "next_key_seed"), ("map value", "serialize_value", "next_value_seed"),
 ]
 
@@ -93,7 +94,7 @@ def run(run_, ctx):
         site = sv[0][2]
         run_.check(not bads, "T1", kind, ("%s / %s are not inverse: " % (sm, dm)) + (bads[0] if bads else ""), site, found=bads,
                    detail="%s writes what %s reads back" % (sm, dm))
-    run_.floor("T1", 36)
+    run_.floor("T1", 37)
     # B1
     for (kind, canon, *rest), (info, why) in sorted(helpers.memo.items(), key=lambda kv: str(kv[0])):
         nm = {"W": "canonical varint writer", "R": "varint reader", "ZE": "zig-zag", "ZD": "inverse zig-zag"}.get(kind)
